@@ -31,6 +31,22 @@ def slopes_seen(solver, log, n, upto):
     return M
 
 
+def stop_index(solver, log, n, eps):
+    """number of trials made when the stop was determined: the first trial that subdivided an interval of Hoelder length below eps
+    (len(log) if there is none). For a run driven by Solve alone this is the last trial; a caller who drives the search in batches may
+    go past it, and slopes revealed after that point are not the M of the theorem (they are the mechanism of finding F6)."""
+    import bisect
+    xs_of = {tuple(float(v) for v in it.GetY().floatVariables): it.GetX() for it in H.items(solver) if it.GetY() is not None and it.GetY().floatVariables is not None}
+    pts = [0.0, 1.0]
+    for j, (y, z) in enumerate(log):
+        x = xs_of[tuple(float(v) for v in y)]
+        i = bisect.bisect_left(pts, x)
+        if j > 0 and 0 < i < len(pts) and pow(pts[i] - pts[i - 1], 1.0 / n) < eps:
+            return j + 1
+        pts.insert(i, x)
+    return len(log)
+
+
 def run_until_accuracy(s, case):
     """case['mode']: 'solve' | 'batches' (DoGlobalIteration(b) until the reported accuracy is below eps, then Solve)
     | 'refine-early' (a few iterations, a local refinement, then Solve)"""
@@ -71,7 +87,8 @@ def evaluate(case, L0, fmin):
     in_record = {tuple(float(v) for v in it.GetY().floatVariables) for it in H.items(s) if it.GetIndex() == 0}
     p.log = [e for e in p.log if tuple(float(v) for v in e[0]) in in_record]
     nt = len(p.log)
-    M_sel = slopes_seen(s, p.log, n, nt - 1)
+    kstop = stop_index(s, p.log, n, case['eps'])
+    M_sel = slopes_seen(s, p.log, n, kstop - 1)      # the estimate in force when the interval that ended the search was selected
     M_fin = slopes_seen(s, p.log, n, nt)
     side = max(b - a for a, b in zip(case['lo'], case['hi']))
     L = L0 * side
@@ -80,7 +97,7 @@ def evaluate(case, L0, fmin):
     best = float(sol.bestTrials[0].functionValues[0].value)
     gap = best - fmin
     r, eps = case['r'], case['eps']
-    info = {'trials': nt, 'M_sel': M_sel, 'M_final': M_fin, 'L': L, 'gap': gap, 'bound_sel': (r * M_sel / 2) * eps + grid, 'bound_final': (r * M_fin / 2) * eps + grid,
+    info = {'trials': nt, 'stop_determined_at': kstop, 'M_sel': M_sel, 'M_final': M_fin, 'L': L, 'gap': gap, 'bound_sel': (r * M_sel / 2) * eps + grid, 'bound_final': (r * M_fin / 2) * eps + grid,
             'cond_sel': r * M_sel >= K(n) * L, 'cond_final': r * M_fin >= K(n) * L}
     if info['cond_sel'] and not (gap < info['bound_sel']):
         return 'violation', info
@@ -100,7 +117,9 @@ def adversarial_1d(case, lip0):
     in_record = {tuple(float(v) for v in it.GetY().floatVariables) for it in H.items(s) if it.GetIndex() == 0}
     p.log = [e for e in p.log if tuple(float(v) for v in e[0]) in in_record]
     nt = len(p.log)
-    M_sel = slopes_seen(s, p.log, 1, nt - 1)
+    kstop = stop_index(s, p.log, 1, case['eps'])
+    M_sel = slopes_seen(s, p.log, 1, kstop - 1)
+    p.log = p.log[:kstop]      # the partition at the moment the stop was determined (the reported best can only be lower than the best of these trials)
     side = case['hi'][0] - case['lo'][0]
     L = case['r'] * M_sel / 2
     if L < lip0 * side:
@@ -204,13 +223,13 @@ def run(chk):
             stats['cond_sel'] += 1
             worst = max(worst, info['gap'] / info['bound_sel'])
         if st == 'violation':
-            msg = info if isinstance(info, str) else ('best - f* = %.6g is not below (r M/2) eps + grid = %.6g although r M = %.4g >= K_N L = %.4g (N=%d, M taken when the last interval was selected, %d trials)'
+            msg = info if isinstance(info, str) else ('best - f* = %.6g is not below (r M/2) eps + grid = %.6g although r M = %.4g >= K_N L = %.4g (N=%d, M in force when the interval that ended the search was selected, %d trials)'
                                                       % (info['gap'], info['bound_sel'], case['r'] * info['M_sel'], K(case['n']) * info['L'], case['n'], info['trials']))
             found += chk.violation('certificate', msg, {'kind': 'cones', 'case': case, 'L0': L0, 'fmin': fmin})
             if found > 2:
                 break
         elif st == 'final-M-only':
-            chk.violation('final-M-raised-by-last-trial', 'bound fails only under the final-M reading (M %.4g -> %.4g at the last trial)' % (info['M_sel'], info['M_final']),
+            chk.violation('final-M-raised-by-last-trial', 'bound fails only under the final-M reading (M %.4g when the stop was determined -> %.4g afterwards)' % (info['M_sel'], info['M_final']),
                           {'kind': 'cones', 'witness': 'final-M', 'case': case})
     # adversarial admissible dips (N = 1): flat long runs and the cone cases again
     adv = {'ok': 0, 'skip': 0, 'max_trials': 0, 'worst': 0.0}
